@@ -845,3 +845,62 @@ def c10_m(ctx):
 def c10_n(ctx):
     from .C08 import c08_k
     c08_k(ctx)
+
+
+# numpy 2.0 release notes ("NumPy 2.0 migration guide", NEP 52): names that no longer exist.
+NUMPY2_REMOVED = ('linalg.linalg', 'NINF', 'PINF', 'Inf', 'Infinity', 'infty', 'NaN', 'NAN',
+                  'float_', 'complex_', 'unicode_', 'string_', 'row_stack_', 'product',
+                  'cumproduct', 'alltrue', 'sometrue', 'in1d_', 'asfarray', 'find_common_type',
+                  'cast', 'source', 'lookfor', 'who', 'issubsctype', 'issubclass_', 'mat',
+                  'maximum_sctype', 'obj2sctype', 'sctype2char', 'sctypes', 'issctype',
+                  'set_string_function', 'deprecate', 'safe_eval', 'recfromcsv', 'recfromtxt',
+                  'disp', 'byte_bounds', 'add_newdoc_ufunc', 'DataSource', 'longfloat',
+                  'singlecomplex', 'cfloat', 'longcomplex', 'clongfloat', 'nbytes',
+                  'geterrobj', 'seterrobj', 'tracemalloc_domain', 'compat', 'round_', 'msort',
+                  'trapz_')
+
+
+@obligation('C10-o', 'T12', 'the surrogate\'s code refers only to numpy names that exist in '
+            'numpy >= 2 (library fact; the handler for numerical errors of the GP optimisation '
+            'in particular)', floor=1,
+            necessary='an `except np.linalg.linalg.LinAlgError` clause is evaluated when the '
+                      'optimiser raises anything: AttributeError replaces the intended "stop '
+                      'optimising, keep the evidence" handling and the inference aborts')
+def c10_o(ctx):
+    ctx.fact('numpy >= 2.0 removed: np.linalg.linalg, np.NINF, np.Inf, np.float_, ... (NumPy 2.0 '
+             'migration guide); LinAlgError lives in np.linalg')
+    mods = ('elfi.methods.bo.gpy_regression', 'elfi.methods.posteriors',
+            'elfi.methods.inference.bolfi')
+    n = 0
+    for mn in mods:
+        m = ctx.repo.module(mn)
+        for f in m.all_functions:
+            fnode = getattr(f, 'node', None)
+            if fnode is None or isinstance(fnode, ast.Lambda):
+                continue
+            for x in own_nodes(fnode):
+                if not isinstance(x, ast.Attribute):
+                    continue
+                # dotted chain rooted at np / numpy
+                parts = []
+                y = x
+                while isinstance(y, ast.Attribute):
+                    parts.append(y.attr)
+                    y = y.value
+                if not (isinstance(y, ast.Name) and y.id in ('np', 'numpy')):
+                    continue
+                if isinstance(getattr(x, '_parent', None), ast.Attribute):
+                    continue      # only the full chain
+                chain = '.'.join(reversed(parts))
+                n += 1
+                bad = [r for r in NUMPY2_REMOVED if chain == r or chain.startswith(r + '.')]
+                if bad:
+                    ctx.bad(f, 'numpy name exists', '`np.{}` does not exist in numpy >= 2 '
+                            '(removed: np.{}); evaluating it raises AttributeError'.format(
+                                chain, bad[0]), fn=f, node=x)
+    if n < 20:
+        ctx.undecided('expected numpy references in the surrogate modules, found {}'.format(n))
+    if not any(i['obligation'] == 'C10-o' and i['verdict'] == 'violated'
+               for i in ctx.instances):
+        ctx.ok('elfi.methods.bo', 'numpy names exist', '{} numpy references in {} modules, none '
+               'in the removed-names table'.format(n, len(mods)))
